@@ -205,7 +205,7 @@ class G:
         k = r.choice(["list", "List", "Sequence", "MutableSequence", "deque", "set", "frozenset", "AbstractSet", "tuplevar", "tuplefix",
                       "tupleempty", "tupleunpack", "namedtuple", "dict", "Dict", "Mapping", "MutableMapping", "OrderedDict", "defaultdict",
                       "MappingProxyType", "Counter", "ChainMap", "typeddict", "optional", "union", "union", "final", "annotated",
-                      "dataclass", "dataclass", "dataclass", "generic", "pep604", "bareList", "bareDict", "Collection", "literal"])
+                      "dataclass", "dataclass", "dataclass", "generic", "pep604", "bareList", "bareDict", "Collection", "literal", "pep695", "pep695"])
         self.tags.add("k:" + k)
         if k in ("list", "List", "Sequence", "MutableSequence", "Collection"):
             t, v, _ = self.ty(depth + 1)
@@ -284,6 +284,14 @@ class G:
         if k == "annotated":
             t, v, h = self.ty(depth + 1)
             return f"Annotated[{t}, 'meta']", v, h
+        if k == "pep695":
+            t, v, h = self.ty(depth + 1)
+            if self.defloc != "module" or t == "None":
+                return t, v, h
+            n = self.fresh("PA")
+            self.decls.append(f"type {n} = {t}")
+            self.tags.add("pep695-alias")
+            return n, v, False
         if k == "literal":
             return self.literal()
         if k == "dataclass":
@@ -744,7 +752,9 @@ def gen_identity_schema(rng: random.Random, idx: int, template: str | None = Non
         L.append(src)
         L.append(f"L1 = {sn}")
         # restore the prelude names the class definition has just shadowed inside this module
-        L.append("from dataclasses import dataclass, field, make_dataclass; import collections, datetime, typing, types, uuid, enum, pathlib")
+        # (the class keeps its own name: re-binding that one would make it unreachable by name)
+        keep = [m for m in ("collections", "datetime", "typing", "types", "uuid", "enum", "pathlib") if m != sn]
+        L.append("from dataclasses import dataclass, field, make_dataclass; import " + ", ".join(keep))
         names = ["L1"]
     elif t == "shadow-module":
         module = rng.choice(SHADOW_MODULE_NAMES)
@@ -1021,6 +1031,7 @@ def gen_defaults_schema(rng: random.Random, idx: int) -> dict:
 MM_SUBNAMES = ["models", "types", "enum", "math", "uuid", "typing", "v1", "dialect", "helpers", "field", "collections", "datetime", "config"]
 MM_CLSNAMES = ["Address", "Item", "Field", "Alias", "Dialect", "Sentinel", "Payload", "Money", "Config", "MISSING", "Discriminator",
                "ValueSpec", "CodeBuilder", "UUID", "Decimal"]
+MM_BUILDER_NAMES = ["dialect", "cls", "lines", "attrs", "decoder", "encoder", "globals", "format_name", "default_dialect", "field_classes"]
 MM_HDR = ("from dataclasses import dataclass, field\nimport enum\nfrom typing import *\nfrom mashumaro import DataClassDictMixin\n"
           "from mashumaro.mixins.json import DataClassJSONMixin\n")
 
@@ -1048,6 +1059,16 @@ def gen_multimod_schema(rng: random.Random, idx: int) -> dict:
     tags |= {"mm-sub:" + sa, "mm-sub:" + sb, "mm-class:" + cn, "mm-kind:" + kind, "mm-same-name:" + str(cn == cn_b)}
     shape = rng.choice(["same-name", "same-name", "typevar-foreign", "typevar-foreign", "string-annotations", "string-annotations", "mixed"])
     tags.add("mm-shape:" + shape)
+    # user names equal to attributes of the builder object (its __dict__ must never be a namespace of annotations)
+    force_bare = False
+    if shape in ("string-annotations", "mixed") and rng.random() < 0.45:
+        if rng.random() < 0.7:
+            sa = rng.choice(MM_BUILDER_NAMES)
+            ma = f"{pa}.{sa}"
+            force_bare = True
+        else:
+            cn = cn_b = rng.choice(MM_BUILDER_NAMES)
+        tags.add("mm-builder-attr-name")
     future = shape in ("string-annotations", "mixed") and rng.random() < 0.8
     aux = [[pa, ""], [ma, MM_HDR + _mm_class(kind, cn, 1) + "\n"], [pb, ""]]
     if depth_b == 2:
@@ -1058,6 +1079,8 @@ def gen_multimod_schema(rng: random.Random, idx: int) -> dict:
     imports = []
     # how the main module refers to the two classes
     style_a = rng.choice(["from-class", "dotted", "from-sub-bare", "from-sub-alias"])
+    if force_bare:
+        style_a = "from-sub-bare"
     if style_a == "from-sub-bare" and sa == "field":
         style_a = "from-sub-alias"       # the main module itself calls dataclasses.field below
     style_b = rng.choice(["from-class-as", "dotted", "from-sub-alias"])
@@ -1090,7 +1113,18 @@ def gen_multimod_schema(rng: random.Random, idx: int) -> dict:
     holders = []
     if shape in ("same-name", "mixed"):
         (pt0, pv0), (pt1, pv1) = rng.choice(POSITIONS), rng.choice(POSITIONS)
-        L.append(f"@dataclass\nclass H{base}:\n    f0: {pt0.format(c=ra)}\n    f1: {pt1.format(c=rb)}\n    z: int = 0")
+        t0, t1 = pt0.format(c=ra), pt1.format(c=rb)
+        if rng.random() < 0.5:
+            # PEP 695 aliases: named types without __qualname__, defined next to the holder or in package A
+            if rng.random() < 0.5:
+                L.append(f"type AliasA = {t0}\ntype AliasB = {t1}")
+            else:
+                aux[1][1] += f"type AliasA = {pt0.format(c=cn)}\n"
+                imports.append(f"from {ma} import AliasA")
+                L.append(f"type AliasB = {t1}")
+            t0, t1 = "AliasA", "AliasB"
+            tags.add("pep695-alias")
+        L.append(f"@dataclass\nclass H{base}:\n    f0: {t0}\n    f1: {t1}\n    z: int = 0")
         L.append(f"MAKE['H'] = lambda: H({pv0.format(v=val.format(r=ra))}, {pv1.format(v=val.format(r=rb))})")
         L.append(f"IDENT.append((H, 'f0', {ra})); IDENT.append((H, 'f1', {rb}))")
         holders.append("H")
